@@ -206,6 +206,105 @@ def run_workers(case: dict) -> Outcome:
     return out
 
 
+# ----------------------------------------------------------------------------- bulk: hundreds of messages, several consumers
+
+
+@st.composite
+def bulk_case(draw, broker):
+    """A backlog of 100-300 messages, most of them delayed with pairwise distinct due times that have (nearly) all passed, taken by
+    2-3 consumers at once.  Sizes the small histories never reach (batching thresholds, paging, long promotion loops)."""
+    n = draw(st.sampled_from([100, 101, 150, 250, 300]))
+    case = {"broker": broker, "seed": draw(st.integers(0, 2**16)), "n": n, "consumers": draw(st.integers(2, 3)),
+            "delayed_frac": draw(st.sampled_from([1.0, 1.0, 0.7, 0.0])), "spread_ms": draw(st.sampled_from([1, 3, 10])),
+            "prios": draw(st.sampled_from([[5], [5], [0, 5, 9]])), "hold": draw(st.sampled_from([0.0, 0.0, 0.002])),
+            "same_client": draw(st.booleans())}
+    if broker != "mem":
+        case["lat"] = {f"c{i}": draw(st.lists(st.sampled_from([0.0, 0.001, 0.002]), max_size=10)) for i in range(3)}
+    return case
+
+
+async def _bulk(loop, case, out: Outcome):
+    from datetime import timedelta
+
+    from repid import MessageCategory
+    from repid.data._key import RoutingKey
+    from repid.data._parameters import DelayProperties, Parameters
+
+    reset_globals()
+    env = Env(case["broker"], loop, case["seed"])
+    prod = env.connection("p0", None, buckets=False)
+    await prod.connect()
+    b = prod.message_broker
+    await b.queue_declare("qb")
+    now = vclock.VDateTime.now()
+    n = case["n"]
+    n_delayed = int(n * case["delayed_frac"])
+    for i in range(n):
+        prm = Parameters()
+        if i < n_delayed:
+            # due times one `spread` apart, the last ones slightly in the future
+            prm = Parameters(delay=DelayProperties(next_execution_time=now + timedelta(milliseconds=case["spread_ms"] * (i - n_delayed + 20))))
+        await b.enqueue(RoutingKey(topic="t0", queue="qb", priority=case["prios"][i % len(case["prios"])], id_=f"m{i}"), "", prm)
+    await asyncio.sleep(0.05)
+    got: dict[str, list] = {}
+    conns = []
+    for ci in range(case["consumers"]):
+        if case["broker"] == "mem" or (case["same_client"] and ci > 0):
+            conns.append(conns[0] if conns else prod)
+        else:
+            c = env.connection(f"c{ci}", (case.get("lat") or {}).get(f"c{ci}"), buckets=False)
+            await c.connect()
+            conns.append(c)
+
+    async def consumer(ci: int):
+        mb = conns[ci].message_broker
+        c = mb.get_consumer("qb", None, draw_prefetch[ci], MessageCategory.NORMAL)
+        await c.start()
+        try:
+            while True:
+                try:
+                    key, _p, _q = await asyncio.wait_for(c.consume(), timeout=2.5)
+                except asyncio.TimeoutError:
+                    return
+                got.setdefault(key.id_, []).append((ci, round(loop.time(), 6)))
+                if case["hold"]:
+                    await asyncio.sleep(case["hold"])
+                await mb.ack(key)
+        finally:
+            await asyncio.shield(c.finish())
+
+    draw_prefetch = [None, 1, 5][: case["consumers"]]
+    await asyncio.gather(*[consumer(ci) for ci in range(case["consumers"])])
+    await asyncio.sleep(0.3)
+    twice = {i: v for i, v in got.items() if len(v) > 1}
+    if twice:
+        i, v = sorted(twice.items())[0]
+        out.v("double-delivery", f"{len(twice)} of {n} messages were handed out more than once although every hand-over was acknowledged, "
+              f"e.g. {i}: (consumer, time) {v[:3]}", broker=case["broker"], bulk=True)
+    missing = [f"m{i}" for i in range(n) if f"m{i}" not in got]
+    if missing:
+        pr = env.probe()
+        out.v("never-delivered", f"{len(missing)} of {n} messages were not delivered although {case['consumers']} consumers polled until "
+              f"the queue stayed empty for 2.5 s, e.g. {missing[0]}: {[p.short() for p in pr.get(missing[0], [])]}", broker=case["broker"], bulk=True)
+    left = {i: v for i, v in env.probe().items() if v}
+    if left and not missing:
+        i = sorted(left)[0]
+        out.v("acked-still-present", f"{len(left)} acknowledged messages are still somewhere, e.g. {i}: {[p.short() for p in left[i]]}",
+              broker=case["broker"], bulk=True)
+    out.nontrivial = len({ci for v in got.values() for ci, _ in v}) >= 2
+    out.cls("broker-" + case["broker"], f"n-{n}", f"consumers-{case['consumers']}", "delayed" if n_delayed else "immediate")
+
+
+def run_bulk(case: dict) -> Outcome:
+    out = Outcome()
+    try:
+        vclock.run(lambda loop: _bulk(loop, case, out), max_steps=3_000_000)
+    except (vclock.StepLimit, vclock.Deadlock) as e:
+        out.inconclusive = True
+        out.info["watchdog"] = str(e)
+    return out
+
+
 def _h(b):
     return lambda: holders_case(b)
 
@@ -224,13 +323,17 @@ CHECK = Check(
         "maintenance; every history ends with all consumers consuming until dry so duplicates in prefetch queues surface. Oracle: holder "
         "map from hand-over / return events - a hand-over of id x while another consumer still holds x (no reject, requeue, "
         "holder-shutdown return or post-crash timeout in between) is a violation; no id in two places. Worker level: 2-3 workers on one "
-        "queue, succeeding actors: every job executed exactly once. Non-trivial = >=2 consume calls in flight at once and a hand-over."
+        "queue, succeeding actors: every job executed exactly once. bulk-*: a backlog of 100-300 (mostly delayed, distinct due times) "
+        "messages drained by 2-3 concurrent consumers that acknowledge everything: each message handed out exactly once. Non-trivial = >=2 consume calls in flight at once and a hand-over."
     ),
     assumptions=["virtual clock; Redis and RabbitMQ are in-process server models; interleavings = coroutine interleavings permuted by generated latencies"],
     subchecks=[
         SubCheck("holders-mem", _h("mem"), run_holders, quick=80, thorough=2500),
         SubCheck("holders-redis", _h("redis"), run_holders, quick=80, thorough=2500),
         SubCheck("holders-amqp", _h("amqp"), run_holders, quick=80, thorough=2500),
+        SubCheck("bulk-mem", lambda: bulk_case("mem"), run_bulk, quick=4, thorough=120),
+        SubCheck("bulk-redis", lambda: bulk_case("redis"), run_bulk, quick=3, thorough=100),
+        SubCheck("bulk-amqp", lambda: bulk_case("amqp"), run_bulk, quick=3, thorough=100),
         SubCheck("workers-mem", _w("mem"), run_workers, quick=8, thorough=300),
         SubCheck("workers-redis", _w("redis"), run_workers, quick=15, thorough=500),
         SubCheck("workers-amqp", _w("amqp"), run_workers, quick=15, thorough=500),
